@@ -79,6 +79,14 @@ def wrapSeek (sub : FileLike) (i : Nat) (eof : Int) (tr : Int → Int → Except
     | (.error e, s2) => (.error e, s2)
     | (.ok _, s2) => (.ok new, s2.set i { s2 i with pos := new })  -- self.position = new_position
 
+/-- `if expected_position != true_position: self._seek(self.position)`. -/
+def syncSub (sub : FileLike) (expected : Int) (s1 : Store) : Res Unit :=
+  if expected ≠ sub.tell s1 then
+    match sub.seek expected 0 s1 with
+    | (.error e, s2) => (.error e, s2)
+    | (.ok _, s2) => (.ok (), s2)
+  else (.ok (), s1)
+
 /-- `StreamWrapper.read(size)` for `size ≥ 0`. `raw pos size` is `_read` (sees `self.position`). -/
 def wrapRead (sub : FileLike) (i : Nat) (eof : Int) (tr : Int → Int → Except Err Int)
     (raw : Int → Int → Store → Res (List Byte)) (size : Int) (s : Store) : Res (List Byte) :=
@@ -86,17 +94,10 @@ def wrapRead (sub : FileLike) (i : Nat) (eof : Int) (tr : Int → Int → Except
   let ts0 := if eof > 0 then min (eof - pos) size else size       -- clip only when end_of_file > 0
   let ts := if ts0 < 0 then 0 else ts0
   let s1 := s.set i { s i with tsize := ts }
-  let truePos := sub.tell s1
   match tr ts pos with
   | .error e => (.error e, s1)
   | .ok expected =>
-    let r1 : Res Unit :=
-      if expected ≠ truePos then
-        match sub.seek expected 0 s1 with                          -- self._seek(self.position)
-        | (.error e, s2) => (.error e, s2)
-        | (.ok _, s2) => (.ok (), s2)
-      else (.ok (), s1)
-    match r1 with
+    match syncSub sub expected s1 with
     | (.error e, s2) => (.error e, s2)
     | (.ok _, s2) =>
       match raw pos ts s2 with
